@@ -1425,3 +1425,7 @@ SPECS["C13"]["level_text"] += (' Track apileft (Props/C13Q): the model has a fou
     'slots, hist = [epoch pair], mutex free and clean, solo snapshot = epoch pair, solo sequence = 0 (new_is_init); the harness builds every second object through '
     'Default::default(), op new_default compares both constructors (words, mutex, sequence(), snapshot()) with init, and trace / execution / explore ops drive '
     'the real sequence() through H3 (ordering included).')
+SPECS["C18"]["level_text"] += (' Track apileft: the model\'s fourth program, AtomicBaseTime::sequence() (one relaxed load of the counter), is covered by the '
+    'machine-level statements above (…_only_update_lock_blocks quantify over every program counter); its own no-lock / no-store / one-own-step theorems are pinned '
+    'under C13 (Props/C13Q: sequence_no_lock_no_store, sc_/ra_sequence_one_step, ra_sequence_enabled), and the abt family\'s oracle reports a lock operation or a '
+    'store by the real sequence() as a C18 violation.')
